@@ -121,7 +121,12 @@ def dkg_lattice(rng, tier, phase):
             ops.append(f"status {l} nil known")
             for i in IDS:
                 ops.append(f"status {l} some {i}")
-    ops = rng.shuffle(ops)
+    # the valid, state-changing packets are kept out of the shuffled part (they come last, below), so that the lattice
+    # really runs in the phase it is meant for
+    def moves(o):
+        f = o.split()
+        return f[0] == "packet" and f[2] == "some" and f[3] == "some" and f[4] == "known" and f[5] == "leader" and f[6] == "tpl" and f[7] in ("prop.valid", "exec.valid")
+    ops = rng.shuffle([o for o in ops if not moves(o)])
     # at most two accepted signed bundles per instance (a third fills the channel, a fourth is the known finding)
     # (a stopped broadcaster does not record hashes, so there a duplicate occupies a slot as well)
     tail = ["bcast proc some resp.signed known", "bcast proc some resp.dup known", "bcast grpc some resp.signed known"]
@@ -129,7 +134,7 @@ def dkg_lattice(rng, tier, phase):
         tail.append("bcast grpc some resp.dup known")
     tail.append("packet proc some some known leader b4 dkg.resp.signed unknown")
     # the valid, state-changing packets last
-    for l in layers[:1]:
+    for l in layers:
         tail += [pk(l, "some", "some", "known", "leader", "tpl", "prop.valid", "known"),
                  pk(l, "some", "some", "known", "leader", "tpl", "prop.valid", "known"),
                  pk(l, "some", "some", "known", "leader", "tpl", "exec.valid", "known"),
